@@ -20,11 +20,11 @@ def reflect():
     import singlecellmultiomics.modularDemultiplexer.baseDemultiplexMethods as B
     rx = B.fastqCleanerRegex
     allc = ''.join(chr(c) for c in range(0x110000))
-    kept = [ord(c) for c in rx.sub('', allc)]
-    # single characters must behave like in the bulk run (sample)
+    kept = [ord(c) for c in B.fqSafe(allc)]
+    # single characters must behave like in the bulk run (sample): fqSafe is a per-character filter
     keptset = set(kept)
     for c in list(range(0, 300)) + [0x2028, 0xd800, 0x10ffff]:
-        assert (rx.sub('', chr(c)) == chr(c)) == (c in keptset), c
+        assert (B.fqSafe(chr(c)) == chr(c)) == (c in keptset) and B.fqSafe(chr(c)) in ('', chr(c)), c
     ranges = []
     for c in kept:
         if ranges and ranges[-1][1] == c - 1:
